@@ -21,8 +21,10 @@ P_BODIES = [
 ]
 P_CODES = ["print('ka'); 7", "print('KA'); 7"]
 
-SCRIPT_EVENTS = ["none", "edit1", "edit2", "touch+1", "hdr-xonsh", "hdr-py", "trunc-header", "trunc-code", "zero-tail", "empty", "no-script-cache-after-edit"]
-CODE_EVENTS = ["none", "other-case", "hdr-py", "trunc-code"]
+# link-edit1: every run goes through the symlink l.xsh -> s.xsh (own lstat mtime old), the edit hits the target;
+# hdr-<line>+<how>: version stamps that properly extend / are a proper prefix of the running one
+SCRIPT_EVENTS = ["none", "edit1", "edit2", "touch+1", "link-edit1", "hdr-xonsh", "hdr-py", "hdr-xonsh+digit", "hdr-py+prefix", "trunc-header", "trunc-code", "zero-tail", "empty", "no-script-cache-after-edit"]
+CODE_EVENTS = ["none", "other-case", "hdr-py", "hdr-xonsh+dev", "trunc-code"]
 
 # the child pins the parser table the parent validated with tables.ensure_tables() (no lock, no re-validation)
 BOOT = (
@@ -93,10 +95,8 @@ def _damage(path, ev):
         data = f.read()
     h = core.header_len(data)
     st = os.stat(path)
-    if ev == "hdr-xonsh":
-        new = core.foreign_header("xonsh") + core.foreign_payload()
-    elif ev == "hdr-py":
-        new = core.foreign_header("py") + core.foreign_payload()
+    if ev.startswith("hdr-"):
+        new = core.foreign_header(ev[4:]) + core.foreign_payload()
     elif ev == "trunc-header":
         new = data[: h - 3]
     elif ev == "trunc-code":
@@ -146,7 +146,12 @@ def _scenario(item):
 
     if kind == "script":
         write(0, 10)
-        args1 = args2 = ["s.xsh"]
+        name = "s.xsh"
+        if ev.startswith("link-"):
+            name = "l.xsh"
+            os.symlink("s.xsh", os.path.join(src, name))
+            os.utime(os.path.join(src, name), (core.BASE + core.LINK_TICK, core.BASE + core.LINK_TICK), follow_symlinks=False)
+        args1 = args2 = [name]
         o1 = _xonsh(args1, src, home, data)
         runs += 1
         judge(1, o1, ref(("script", 0)))
@@ -156,7 +161,7 @@ def _scenario(item):
         stamp(10)
         now = 10
         body = 0
-        if ev in ("edit1", "edit2", "no-script-cache-after-edit"):
+        if ev in ("edit1", "edit2", "no-script-cache-after-edit", "link-edit1"):
             now = 12
             body = 2 if ev == "edit2" else 1
             write(body, now)
@@ -171,9 +176,9 @@ def _scenario(item):
         runs += 1
         judge(2, o2, ref(("script", body)))
         stamp(now)
-        if ev not in ("none", "edit1", "edit2", "touch+1", "no-script-cache-after-edit") and core.entry_kind(ents[0]) != "ok":
+        if ev not in ("none", "edit1", "edit2", "touch+1", "no-script-cache-after-edit", "link-edit1") and core.entry_kind(ents[0]) != "ok":
             V("left-" + core.entry_kind(ents[0]), 2, core.entry_kind(ents[0]), "ok")
-        o3 = _xonsh(["s.xsh"], src, home, data)
+        o3 = _xonsh([name], src, home, data)
         runs += 1
         judge(3, o3, ref(("script", body)))
     else:
@@ -200,7 +205,7 @@ def _scenario(item):
     return {"viols": viols, "runs": runs}
 
 
-QUICK = {("script", "none"), ("script", "edit1"), ("script", "hdr-py"), ("script", "trunc-code"), ("script", "zero-tail"), ("script", "no-script-cache-after-edit"), ("code", "other-case"), ("code", "hdr-py")}
+QUICK = {("script", "none"), ("script", "edit1"), ("script", "link-edit1"), ("script", "hdr-py"), ("script", "trunc-code"), ("script", "zero-tail"), ("script", "no-script-cache-after-edit"), ("code", "other-case"), ("code", "hdr-py")}
 
 
 def items(thorough=True):
